@@ -1,1 +1,75 @@
-From FF Require Import Pmm.Bitmap.
+(** Non-vacuity for C01 (and shared by C03): a concrete well-formed map with word-boundary pool sizes,
+    Init computed by the model, and concrete histories. *)
+From Coq Require Import NArith List Lia Sorted Bool.
+From FF Require Import Lib.Word Gen.Consts_mm_pmm Pmm.Boot Pmm.BootProofs Pmm.Bitmap Pmm.BitmapProofs Pmm.HistoryProofs
+  Pmm.InitProofs Pmm.TopProofs.
+Import ListNotations.
+Local Open Scope N_scope.
+
+(** 65-frame region (frames 1..0x41), a sub-page available region, an unaligned region holding exactly
+    one whole frame (0x51), a reserved region, a 128-frame region (0x80..0xff) *)
+Definition pm_map : memmap :=
+  [ mkRegion 0x1000 0x41000 1; mkRegion 0x42000 0x800 1; mkRegion 0x50800 0x1800 1;
+    mkRegion 0x60000 0x3000 2; mkRegion 0x80000 0x80000 1 ].
+Definition pm_kstart : N := 0x3000.
+Definition pm_kend : N := 0x5800.      (* kernel frames 3,4,5 *)
+
+Example C01_map_nonvacuous : WFmap pm_map.
+Proof.
+  split.
+  - repeat constructor; unfold WFregion, two64; cbn; lia.
+  - cbn. repeat split; repeat constructor; cbn; lia.
+Qed.
+
+Example C01_kernel_nonvacuous : WFkernel pm_map pm_kstart pm_kend.
+Proof.
+  split; [reflexivity|]. split; [unfold pm_kstart, pm_kend; lia|].
+  exists (mkRegion 0x1000 0x41000 1). cbn. unfold pm_kstart, pm_kend. repeat split; try lia. left. reflexivity.
+Qed.
+
+Example C01_small_nonvacuous : small_map pm_map.
+Proof. unfold small_map. vm_compute. discriminate. Qed.
+
+Definition pm_init_result := pmm_init pm_map pm_kstart pm_kend two64 0.
+Definition pm_a0 : balloc := match fst pm_init_result with InitOk a _ => a | _ => empty_alloc end.
+Definition pm_b0 : bstate := match fst pm_init_result with InitOk _ b => b | _ => boot_reset end.
+
+(** Init succeeds: 3 pools (65, 1, 128 frames), one early-boot frame (frame 1), kernel frames 3..5 *)
+Example C01_init_nonvacuous :
+  pm_init_result = (InitOk pm_a0 pm_b0, snd pm_init_result) /\
+  early_frames (snd pm_init_result) = [1] /\
+  ranges (a_pools pm_a0) = [(1, 0x41); (0x51, 0x51); (0x80, 0xff)] /\
+  map (fun p => length (p_bitmap p)) (a_pools pm_a0) = [2; 1; 2]%nat /\
+  a_total pm_a0 = 194 /\ a_reserved pm_a0 = 4.
+Proof. vm_compute. repeat split. Qed.
+
+(** a history inside the quantifier: frees of a held frame, of the same frame again, of an unmanaged
+    frame, of a free frame, of an arbitrary 64-bit number *)
+Definition pm_ops : list op :=
+  [OpAlloc; OpAlloc; OpFree 2; OpFree 2; OpFree 0x42; OpFree 0x90; OpFree 0xffffffffffffffff; OpAlloc; OpAlloc].
+
+Example C01_history_nonvacuous : history_ok pm_map pm_kstart pm_kend (early_frames (snd pm_init_result)) pm_ops.
+Proof.
+  intros f Hin Hav.
+  assert (Hf: f = 2 \/ f = 0x42 \/ f = 0x90 \/ f = 0xffffffffffffffff).
+  { cbn in Hin. repeat (destruct Hin as [Hin|Hin]; [inversion Hin; auto; fail|]); try discriminate. destruct Hin. }
+  replace (early_frames (snd pm_init_result)) with [1] by (vm_compute; reflexivity).
+  unfold in_kernel, pm_kstart, pm_kend. split.
+  - intros [H1 H2]. destruct Hf as [->|[->|[->| ->]]]; lia.
+  - intros [H|[]]. destruct Hf as [->|[->|[->| ->]]]; discriminate.
+Qed.
+
+Example C01_run_example :
+  map fst (run pm_a0 pm_ops) =
+  [RAlloc (Some 2); RAlloc (Some 6); RFree FreeOk; RFree FreeDoubleFree; RFree FreeNotManaged;
+   RFree FreeDoubleFree; RFree FreeNotManaged; RAlloc (Some 2); RAlloc (Some 7)].
+Proof. vm_compute. reflexivity. Qed.
+
+(** draining: exactly 190 = 194 - 3 kernel - 1 early frames, the last ones are 0x41 (65th frame of pool 0),
+    0x51 (the one-frame pool) and 0xff *)
+Example C01_drain_example :
+  let rs := map fst (run pm_a0 (repeat OpAlloc 191)) in
+  nth 60 rs (RAlloc None) = RAlloc (Some 0x41) /\ nth 61 rs (RAlloc None) = RAlloc (Some 0x51) /\
+  nth 62 rs (RAlloc None) = RAlloc (Some 0x80) /\
+  nth 189 rs (RAlloc None) = RAlloc (Some 0xff) /\ nth 190 rs (RFree FreeOk) = RAlloc None.
+Proof. vm_compute. repeat split. Qed.
